@@ -30,8 +30,12 @@ impl Codec for Dna {
     }
 
     /// TODO: fast translation of A, T, W to 0 and C, G, S to 1
-    fn unsafe_from_ascii(_b: u8) -> Self {
-        todo!()
+    fn unsafe_from_ascii(b: u8) -> Self {
+        match b {
+            b'S' | b'C' | b'G' => Dna::S,
+            b'W' | b'A' | b'T' => Dna::W,
+            _ => panic!("Unrecognised character: {b:#04X?}"),
+        }
     }
 
     fn try_from_ascii(c: u8) -> Option<Self> {
